@@ -149,6 +149,21 @@ FIXED = [
     func.return
   }
 }''', ["val", "lb", "ub", "step"]),
+    ("two_launch_fields", '''builtin.module {
+  "accfg.accelerator"() <{name = @vt_poll3, fields = {A = 970 : i32, B = 972 : i32}, launch_fields = {launch_b = 981 : i32, launch = 980 : i32}, barrier = 975 : i32}> : () -> ()
+  func.func @f(%a : i32, %b : i32, %c : i1) {
+    %s0 = accfg.setup "vt_poll3" to ("B" = %b : i32, "A" = %a : i32) : !accfg.state<"vt_poll3">
+    %t = "accfg.launch"(%b, %a, %s0) <{param_names = ["launch", "launch_b"], accelerator = "vt_poll3"}> : (i32, i32, !accfg.state<"vt_poll3">) -> !accfg.token<"vt_poll3">
+    "accfg.await"(%t) : (!accfg.token<"vt_poll3">) -> ()
+    scf.if %c {
+      %s1 = accfg.setup "vt_poll3" from %s0 to ("A" = %b : i32) : !accfg.state<"vt_poll3">
+      %t1 = "accfg.launch"(%a, %b, %s1) <{param_names = ["launch_b", "launch"], accelerator = "vt_poll3"}> : (i32, i32, !accfg.state<"vt_poll3">) -> !accfg.token<"vt_poll3">
+      "accfg.await"(%t1) : (!accfg.token<"vt_poll3">) -> ()
+      scf.yield
+    }
+    func.return
+  }
+}''', ["val", "val", "cond"]),
     ("poll2", '''builtin.module {
   "accfg.accelerator"() <{name = @vt_poll2, fields = {A = 970 : i32}, launch_fields = {launch = 980 : i32}, barrier = 975 : i32}> : () -> ()
   func.func @f(%a : i32, %b : i32) {
